@@ -50,7 +50,7 @@ def check_C11(tier, seed):
     rng = random.Random(seed)
     quick = tier == "quick"
     # (A) the scan/density algorithm as specified satisfies the contract; (B) export every sequence
-    consts = {"MaxLen": "4", "MaxGroup": "3", "MaxBinding": "2"} if quick else {"MaxLen": "5", "MaxGroup": "3", "MaxBinding": "3"}
+    consts = {"MaxLen": "4", "MaxGroup": "3", "MaxBinding": "2"} if quick else {"MaxLen": "5", "MaxGroup": "2", "MaxBinding": "2"}
     r = run_mc("MC_BindGroupData.tla", "MC_BindGroupData.cfg", workers=8, consts=consts)
     rep.add_mc("MC_BindGroupData", r, "all declaration sequences, contract + table + first-duplicate invariants")
     # (D) self-test: the mutant that only tests duplicates in the first group must be rejected
@@ -118,7 +118,7 @@ def check_C03(tier, seed):
         rep.add_mc("MC_Stages(2 helpers x 2 entries, no export)", r3)
     rep.exhaustive = True
     keep = ["groups", "push_stages"]
-    drive_and_judge(rep, "C03", cases_from_S(r1.cases, "shape", "stages-shape"), "shape", keep)
+    drive_and_judge(rep, "C03", cases_from_S(r1.cases if quick else r1.cases[::4], "shape", "stages-shape"), "shape", keep)
     drive_and_judge(rep, "C03", cases_from_S(r2.cases, "ctx", "stages-ctx"), "ctx", keep)
     rc = random_shader_cases(rng, 1200 if quick else 30000, "rnd", "stages-random", n_fn=(0, 6), n_entry=(1, 5), depth=3, push=0.5)
     drive_and_judge(rep, "C03", rc, "random", keep)
@@ -240,6 +240,48 @@ def pairs_of(events):
     return out
 
 
+def strace_calls(cases, tag, rustfmt):
+    """run the driver under strace and summarise what the process did besides computing"""
+    import re as _re
+    d = os.path.join(WORK, "runs", tag)
+    shutil.rmtree(d, ignore_errors=True)
+    os.makedirs(d)
+    ip, tp, lp = os.path.join(d, "in.ndjson"), os.path.join(d, "trace.ndjson"), os.path.join(d, "strace.log")
+    with open(ip, "w") as f:
+        for c in cases:
+            f.write(json.dumps(c) + "\n")
+    build_harness()
+    cmd = ["strace", "-f", "-qq", "-e", "trace=execve,openat,open,creat,unlink,unlinkat,rename,renameat,mkdir,mkdirat,connect,socket", "-o", lp, VDRIVER, "gen", ip, tp, "--no-project", "--no-s"]
+    p = subprocess.run(cmd, stdout=subprocess.PIPE, stderr=subprocess.STDOUT, text=True, timeout=600)
+    if p.returncode != 0 or not os.path.exists(lp):
+        raise ToolError("strace run failed: " + p.stdout[-500:])
+    lines = open(lp, errors="replace").read().splitlines()
+    main_pid = lines[0].split()[0] if lines else ""
+    execs, writes, nets = [], [], []
+    seen_pids = set()
+    for ln in lines:
+        m = _re.match(r"^(\d+)\s+(\w+)\((.*)", ln)
+        if not m:
+            continue
+        pid, call, rest = m.groups()
+        if call == "execve":
+            pm = _re.match(r'"([^"]*)"', rest)
+            path = pm.group(1) if pm else "?"
+            if path != VDRIVER and "= 0" in ln and pid not in seen_pids:
+                # one entry per spawned process (a rustup proxy re-executes the real formatter in the same process)
+                seen_pids.add(pid)
+                execs.append(os.path.basename(path))
+        elif pid == main_pid and call in ("openat", "open", "creat", "unlink", "unlinkat", "rename", "renameat", "mkdir", "mkdirat"):
+            pm = _re.search(r'"([^"]*)"', rest)
+            path = pm.group(1) if pm else "?"
+            wr = call not in ("openat", "open") or _re.search(r"O_WRONLY|O_RDWR|O_CREAT|O_TRUNC|O_APPEND", rest)
+            if wr and os.path.abspath(path) not in (tp, ip) and not path.startswith("/dev/"):
+                writes.append(path)
+        elif pid == main_pid and call in ("connect", "socket"):
+            nets.append(call)
+    return {"ev": "sys", "id": tag, "rustfmt": rustfmt, "n_calls": len(cases), "execs": execs, "writes": writes, "nets": nets}
+
+
 def check_C18(tier, seed):
     rep = Report("C18", tier, seed)
     rng = random.Random(seed)
@@ -285,6 +327,11 @@ def check_C18(tier, seed):
     # (v) free-running threads, eight at a time
     fgroups = [{"id": "f-%04d" % i, "cases": [L[(i + q) % len(L)] for q in range(8)], "schedule": []} for i in range(0, len(L), 2)]
     evE = run_vdriver_raw("sched", fgroups, "C18_E")
+    # (vi) system calls of the calling process: nothing is spawned or opened for writing, except one formatter per call when asked
+    sys_events = []
+    for fmt in (False, True):
+        sc = [dict(c, opts=dict(c["opts"], rustfmt=fmt), repeat=0) for c in L[:6]]
+        sys_events.append(strace_calls(sc, "C18_sys_%d" % fmt, fmt))
     by_src = {}
     order = []
     total = 0
@@ -308,7 +355,7 @@ def check_C18(tier, seed):
         for sha in order:
             for c, o in by_src[sha]:
                 f.write(json.dumps(c) + "\n" + json.dumps(o) + "\n")
-        for e in sched_events:
+        for e in sched_events + sys_events:
             f.write(json.dumps(e) + "\n")
     full = sum(1 for e in sched_events if len(e["order"]) == len(e["schedule"]))
     rep.notes.append("%d of %d scheduled runs followed their exported interleaving to the end (the rest finished a call early)" % (full, len(sched_events)))
@@ -478,14 +525,14 @@ def check_C01(tier, seed):
     cases = []
     ov = F.all_opts(mvs=("rust", "glam"))
     # role-rich shaders under the derive matrix (encase is only combined with representations encase implements)
-    for i in range(24 if quick else 400):
+    for i in range(24 if quick else 200):
         S, has_rt = F.role_shader(rng, big_arrays=(i % 4 == 0), entry_names=(i % 3 == 0))
         if rng.random() < 0.4:
             S["overrides"] = [{"name": "scale", "ty": "f32", "default": "1.0"}, {"name": "count", "ty": "u32", "id": 3}, {"name": "on", "ty": "bool"}][:rng.randint(1, 3)]
         if rng.random() < 0.4:
             S["consts"] = F.const_table(rng)[:rng.randint(3, 30)]
         vecs = [o for o in ov if not (has_rt and (not o["enc"] or o["bmh"]))]
-        for j, o in enumerate(rng.sample(vecs, min(len(vecs), 12 if quick else 32))):
+        for j, o in enumerate(rng.sample(vecs, min(len(vecs), 12 if quick else 24))):
             o = dict(o)
             o["rustfmt"] = (j % 6 == 5)
             o["validate"] = ("none", "all")[j % 2]
